@@ -15,6 +15,7 @@ Sub-checks
 """
 from __future__ import annotations
 
+import itertools
 from collections import Counter
 
 import numpy as np
@@ -756,8 +757,54 @@ STOCK = {"IdentityMapper": IdentityMapper, "CachedIdentityMapper": CachedIdentit
          "CallbackMapper": None}
 
 
+def _check_unknown_user_node(spec):
+    """A user node class the stock traversals know nothing about (derived from
+    Expression, Leaf or AlgebraicLeaf, with children of its own): every stock traversal
+    reports it by raising; none returns as if the node had no content."""
+    from pymbolic.mapper.dependency import DependencyMapper
+    res = Result()
+    base = spec["userleaf"]
+    if base not in ("AlgebraicLeaf", "Leaf", "Expression"):
+        raise HarnessError("userleaf base")
+    levels = usertypes.make_hierarchy({"root": base, "tag": "Gather", "levels": [
+        {"kind": "D", "fields": ["extra", "other"], "mapper_method": None}]})
+    cls, allf, _ = levels[0]
+    node = usertypes.instantiate(cls, allf, {"extra": p.Variable("inside_a"),
+                                            "other": p.Sum((p.Variable("inside_i"), 1))})
+    e = {"bare": node, "sum": p.Sum((node, p.Variable("x"))),
+         "call": p.Call(p.Variable("f"), (node,))}[spec.get("embed", "sum")]
+    stock = dict(STOCK)
+    # all composite kinds off: the mapper descends everywhere (a call that is a leaf of
+    # the analysis legitimately hides what is inside it)
+    stock["DependencyMapper"] = lambda: DependencyMapper(composite_leaves=False)
+    for who, mcls in stock.items():
+        res.compared()
+        try:
+            if who == "CallbackMapper":
+                r = CallbackMapper(lambda expr, mapper, *a: mapper.fallback_mapper(expr, *a),
+                                   IdentityMapper())(e)
+            elif "Combine" in who or "Collector" in who:
+                r = mcls()(e, "t")
+            else:
+                r = mcls()(e)
+        except (UnsupportedExpressionError, NotImplementedError):
+            res.label(f"refused:{who}:user-{base}")
+            continue
+        except Exception as exc:
+            res.fail(f"refusal:{who}:user-{base}:raises-{type(exc).__name__}",
+                     f"{who} on {e!r} raised {type(exc).__name__}: {exc}")
+            continue
+        res.fail(f"unknown-node-silently-handled:{who}:user-{base}",
+                 f"{who} on {e!r} (a node class it has no handler for) returned {r!r}")
+    res.nontrivial = True
+    res.sample = repr(e)[:200]
+    return res
+
+
 def check_refusal(spec):
     """every (stock traversal, node class): handled, or refused by raising"""
+    if "userleaf" in spec:
+        return _check_unknown_user_node(spec)
     res = Result()
     e = build(spec["expr"])
     returned = set()
@@ -869,6 +916,8 @@ def traversal_case(draw, nodes=S.ALL_COMPOSITE, wild=True, nan=True, mv=True):
                  for i in range(k)]
         arr = ["NpArray", items] if len(shape) == 1 else ["NpArray", items, shape]
         ex = arr if draw(st.booleans()) else ["Call", ["Var", "f"], [arr, ["Var", "x"]]]
+    elif draw(st.integers(0, 11)) == 0:
+        ex = draw(S.nested_containers(ex))
     elif mv and draw(st.integers(0, 11)) == 0:
         # a multivector with expression coefficients (the traversals' map_multivector)
         blades = draw(st.lists(st.integers(0, 7), min_size=1, max_size=3, unique=True))
@@ -919,6 +968,10 @@ def generate(ctx):
         for k, args in enumerate(([], ["a0"], ["a0", 7])):
             if ctx.mine(j * 3 + k):
                 ctx.judge("foreign", {"kind": kind, "args": args})
+    for j, (base, emb) in enumerate(itertools.product(("AlgebraicLeaf", "Leaf", "Expression"),
+                                                      ("bare", "sum", "call"))):
+        if ctx.mine(j):
+            ctx.judge("refusal", {"userleaf": base, "embed": emb})
     n = 0
     for j, s in enumerate(refusal_specs()):
         if ctx.mine(j):
